@@ -343,14 +343,25 @@ def load_all_schemes(
 
 __ALL_SCHEMES = []
 __LOADED_ALL_SCHEMES = False
+__EXTRA_FILENAMES: List[str] = []
 
 
 def all_schemes(extra_filenames: Optional[List[str]] = None) -> List[Type[MafScheme]]:
-    """Gets all the known schemes."""
+    """Gets all the known schemes.  Extra scheme definitions given with
+    ``extra_filenames`` are registered in addition to the built-in ones and to
+    those registered by earlier calls."""
     global __LOADED_ALL_SCHEMES
     global __ALL_SCHEMES
+    global __EXTRA_FILENAMES
     if not __LOADED_ALL_SCHEMES or extra_filenames:
-        __ALL_SCHEMES = load_all_schemes(extra_filenames=extra_filenames)
+        # registration is cumulative: keep what earlier calls registered, and
+        # register nothing when the new definitions cannot be loaded
+        filenames = list(__EXTRA_FILENAMES)
+        for filename in extra_filenames or []:
+            if filename not in filenames:
+                filenames.append(filename)
+        __ALL_SCHEMES = load_all_schemes(extra_filenames=filenames)
+        __EXTRA_FILENAMES = filenames
         __LOADED_ALL_SCHEMES = True
     return __ALL_SCHEMES
 
